@@ -66,7 +66,9 @@ def facts(N):
     ints = np.array(([3, 9, 1, 0, 7, 2] * 3)[:N], dtype=np.int64)
     w = np.array(([1.0, 2.0, 0.0, 1.5, NaN, 3.0] * 3)[:N])
     wv = (np.array(([1.0, 2.0, 0.0, 1.5, 5.0, 3.0] * 3)[:N]), np.array(([True, True, True, False, True, True] * 3)[:N]))
-    return dict(base=base, two=two, pair=(garbage, valid), ints=(ints, valid), w=w, wv=wv)
+    valid2 = np.column_stack([valid, np.array(([True, True, False, True, True, False] * 3)[:N])])
+    wn = np.array(([1.0, 2.0, NaN, 1.5, 0.5, 3.0] * 3)[:N])
+    return dict(base=base, two=two, pair=(garbage, valid), ints=(ints, valid), w=w, wv=wv, pair2=(two.copy(), valid2), wn=wn)
 
 
 def ffunc_factories(N):
@@ -85,6 +87,10 @@ def ffunc_factories(N):
         out["sum-pair[%s]" % t] = lambda ig=ig: ffuncs.ffunc_sum(F["pair"], ignore_missing=ig, return_missing_as=(0, False))
         out["mean[%s]" % t] = lambda ig=ig: ffuncs.ffunc_mean(F["base"], F["w"], ignore_missing=ig)
         out["mean-int[%s]" % t] = lambda ig=ig: ffuncs.ffunc_mean(F["ints"], ignore_missing=ig)
+        # (values, validity) facts together with weights that are missing on rows where the fact is valid
+        out["mean-pair-w[%s]" % t] = lambda ig=ig: ffuncs.ffunc_mean(F["pair"], F["w"], ignore_missing=ig)
+        out["sum-ints-wv[%s]" % t] = lambda ig=ig: ffuncs.ffunc_sum(F["ints"], F["wv"], ignore_missing=ig)
+        out["valid_count-pair-wv[%s]" % t] = lambda ig=ig: ffuncs.ffunc_valid_count(F["pair"], F["wv"], ignore_missing=ig)
     return out, F
 
 
@@ -110,6 +116,14 @@ def xfunc_factories(N):
         out["min-int[%s]" % t] = lambda ig=ig: xfuncs.xfunc_min(F["ints"], ignore_missing=ig, return_missing_as=(0, False))
         out["covariance[%s]" % t] = lambda ig=ig: xfuncs.xfunc_covariance(F["two"], warr, ignore_missing=ig)
         out["corrcoef[%s]" % t] = lambda ig=ig: xfuncs.xfunc_corrcoef(F["two"], ignore_missing=ig)
+        # (values, validity) facts together with weights that are missing on rows where the fact is valid
+        out["mean-pair-w[%s]" % t] = lambda ig=ig: xfuncs.xfunc_mean(F["pair"], F["w"], ignore_missing=ig)
+        out["sum-ints-wv[%s]" % t] = lambda ig=ig: xfuncs.xfunc_sum(F["ints"], F["wv"], ignore_missing=ig)
+        out["valid_count-pair-wv[%s]" % t] = lambda ig=ig: xfuncs.xfunc_valid_count(F["pair"], F["wv"], ignore_missing=ig)
+        out["stddev-pair-wv[%s]" % t] = lambda ig=ig: xfuncs.xfunc_stddev(F["pair"], F["wv"], ignore_missing=ig)
+        out["quantile-ints-wv[%s]" % t] = lambda ig=ig: xfuncs.xfunc_quantile(F["ints"], 0.5, F["wv"], ignore_missing=ig)
+        out["covariance-pair2-w[%s]" % t] = lambda ig=ig: xfuncs.xfunc_covariance(F["pair2"], F["wn"], ignore_missing=ig)
+        out["corrcoef-pair2[%s]" % t] = lambda ig=ig: xfuncs.xfunc_corrcoef(F["pair2"], ignore_missing=ig)
     return out, F
 
 
